@@ -4,6 +4,9 @@
 (* the real Session.crosswire_pubsub forwarders running on the in-memory   *)
 (* pubsub fabric and checks what the property demands:                     *)
 (*                                                                         *)
+(*   C16.SidesDistinct      the identities (Session._module) the sides     *)
+(*                          stamp and compare are not pairwise distinct -  *)
+(*                          "the side it came from" is then ambiguous      *)
 (*   C16.Duplicate          a side other than the publishing one got a     *)
 (*                          message twice                                  *)
 (*   C16.OriginAgain        the publishing side got its message a second   *)
@@ -21,6 +24,11 @@
 (*   C16.Missing            at rest, a side has not got a message it is    *)
 (*                          due (forwarded: every side; else: the          *)
 (*                          publishing side)                               *)
+(*                                                                         *)
+(* Sides are places (the local pubsub of client / pilot.000N, T.sides);    *)
+(* T.idents[i] is the identity the session of T.sides[i] computed.  The    *)
+(* markers of a message are judged against identities, deliveries are      *)
+(* counted per place.                                                      *)
 (*                                                                         *)
 (* Clauses prefixed "M." compare each forwarder step with the functions of *)
 (* the design model (ForwardOps); they document divergence of model and    *)
@@ -46,13 +54,21 @@ NoPub  == [side |-> "none", origin |-> Absent, fwd |-> Absent, kind |-> "none"]
 
 E(cond, name) == IF cond THEN {} ELSE {name}
 
+\* identity of the session living at place s
+Ident(s) == T.idents[CHOOSE i \in 1 .. Len(T.sides) : T.sides[i] = s]
+IdentsDistinct == \A i, j \in 1 .. Len(T.idents) : i # j => T.idents[i] # T.idents[j]
+
+\* deliveries due at place s for a message published as p (Expect of ForwardOps
+\* with the publisher's identity for the marker test)
+ExpectT(p, s) == IF s = p.side \/ Forwardable(Ident(p.side), p.origin, p.fwd) THEN 1 ELSE 0
+
 Init ==
   /\ tid \in 1 .. Len(Traces)
   /\ l = 1
   /\ pub  = [i \in IdsT |-> NoPub]
   /\ got  = [s \in SidesT |-> [i \in IdsT |-> 0]]
   /\ infl = 0
-  /\ errs = {} /\ fin = FALSE
+  /\ errs = E(IdentsDistinct, "C16.SidesDistinct") /\ fin = FALSE
 
 \* the delivered instance and what the callback put, as model messages
 InMsg(e)   == [id |-> e.id, origin |-> e.origin, fwd |-> e.fwd, hops |-> e.hops]
@@ -91,7 +107,7 @@ Step ==
                       \cup (IF g2[s][e.id] > 1
                             THEN (IF s = p.side THEN {"C16.OriginAgain"} ELSE {"C16.Duplicate"})
                             ELSE {})
-                      \cup (IF s # p.side /\ Expect(p, s) = 0
+                      \cup (IF s # p.side /\ ExpectT(p, s) = 0
                             THEN (IF p.fwd # "true" THEN {"C16.StaysLocal"}
                                                     ELSE {"C16.ForeignMarkerLocal"})
                             ELSE {})
@@ -106,22 +122,28 @@ Step ==
           [] e.ev = "Deliver" /\ e.sub = "l2p" ->
                /\ infl' = infl - 1 + FanSum(e)
                /\ errs' = errs \cup HopErrs(e)
-                    \cup E(OutMsgs(e) = L2POut(e.side, InMsg(e), FALSE, FALSE, FALSE), "M.L2P")
+                    \cup E(OutMsgs(e) = L2POut(Ident(e.side), InMsg(e), FALSE, FALSE, FALSE), "M.L2P")
                     \cup UNION {E(e.outs[i].scope = "proxy" /\ e.outs[i].kind = e.kind, "M.L2PTarget")
                                   : i \in 1 .. Len(e.outs)}
                /\ UNCHANGED <<pub, got>>
           [] e.ev = "Deliver" /\ e.sub = "p2l" ->
                /\ infl' = infl - 1 + FanSum(e)
                /\ errs' = errs \cup HopErrs(e)
-                    \cup E(OutMsgs(e) = P2LOut(e.side, InMsg(e), FALSE), "M.P2L")
+                    \cup E(OutMsgs(e) = P2LOut(Ident(e.side), InMsg(e), FALSE), "M.P2L")
                     \cup UNION {E(e.outs[i].scope = "local" /\ e.outs[i].kind = e.kind, "M.P2LTarget")
                                   : i \in 1 .. Len(e.outs)}
+               /\ UNCHANGED <<pub, got>>
+          [] e.ev = "Lost" ->
+               \* a subscriber was stopped with the instance on its way: it is
+               \* gone; whether somebody misses it shows at rest
+               /\ infl' = infl - 1
+               /\ errs' = errs
                /\ UNCHANGED <<pub, got>>
           [] e.ev = "Quiet" ->
                /\ errs' = errs
                     \cup E(e.drained, "C16.Circulates")
                     \cup (IF e.drained
-                          THEN UNION {E(got[s][i] >= Expect(pub[i], s), "C16.Missing")
+                          THEN UNION {E(got[s][i] >= ExpectT(pub[i], s), "C16.Missing")
                                         : s \in SidesT, i \in {j \in IdsT : pub[j] # NoPub}}
                                \cup E(infl = 0 /\ e.left = 0, "M.Inflight")
                           ELSE {})
